@@ -284,7 +284,7 @@ func runWire(t *testing.T, scAny any, trace bool) *Outcome {
 				if a.ViaExport {
 					eo := w.NFS.GetExportOptions()
 					p := a.Pol.policy()
-					eo.ReadOnly, eo.Secure, eo.AllowedIPs, eo.EnableRateLimiting, eo.RateLimitConfig = p.ReadOnly, p.Secure, p.AllowedIPs, p.EnableRateLimiting, p.RateLimitConfig
+					eo.ReadOnly, eo.Secure, eo.AllowedIPs, eo.EnableRateLimiting, eo.RateLimitConfig, eo.MaxFileSize = p.ReadOnly, p.Secure, p.AllowedIPs, p.EnableRateLimiting, p.RateLimitConfig, p.MaxFileSize
 					err = w.NFS.UpdateExportOptions(eo)
 				} else {
 					err = w.NFS.UpdatePolicyOptions(a.Pol.policy())
